@@ -12,6 +12,30 @@ Theorem C16_masks_partition : forall (P : Type) (rho : P -> Z) (n : nat) (p : P)
   (0 <= rho p < Z.of_nat n)%Z -> exactly_one P n (qmask rho) p.
 Proof. exact qmask_exactly_one. Qed.
 
+(* the same with the quantised depth as the code holds it: a real (float) value compared with the plane
+   number; any expression whose value is an integer in 0..n-1 will do (round, floor(x + 1/2), ...) *)
+Theorem C16_masks_partition_real_valued : forall (P : Type) (rq : P -> R) (n : nat) (p : P),
+  plane_number_in_range n (rq p) -> exactly_one P n (rmask rq) p.
+Proof. exact rmask_exactly_one. Qed.
+
+Theorem C16_integer_part_quantisers_in_range : forall (n : nat) (y : R),
+  (0 <= y < INR n)%R -> plane_number_in_range n (IZR (Int_part y)).
+Proof. exact Int_part_in_range. Qed.
+
+Theorem C16_set_targets_any_quantiser : forall (P : Type) (rq : P -> R) (n : nat) (img : image P) (ch : nat) (p : P),
+  plane_number_in_range n (rq p) ->
+  let m := rmask rq in
+  exactly_one P n m p /\
+  sum_upto n (fun i => b2R (m i p)) = 1%R /\
+  sum_upto n (fun i => target P m img i ch p) = img ch p /\
+  focus P n m img ch p = img ch p.
+Proof. exact set_targets_any_quantiser. Qed.
+
+(* get_targets returns the plane number divided by max(1, n-1): a value in [0, 1] *)
+Theorem C16_depth_out_range : forall (n : nat) (x : R),
+  plane_number_in_range n x -> (0 <= depth_out n x <= 1)%R.
+Proof. exact depth_out_range. Qed.
+
 (* disjointness needs no range condition at all *)
 Theorem C16_masks_disjoint : forall (P : Type) (rho : P -> Z) (i j : nat) (p : P),
   qmask rho i p = true -> qmask rho j p = true -> i = j.
@@ -128,6 +152,13 @@ Theorem C16_exec_focus_is_image : forall (n : nat) (depth : list dy) (img : list
   (forall chn, In chn img -> length chn = length depth) ->
   let '(_, mk, _, foc) := exec_set_targets n depth img in foc = img.
 Proof. exact exec_focus_is_image. Qed.
+
+Theorem C16_exec_from_observed_plane_numbers : forall (n : nat) (qs : list Z) (img : list (list Z)),
+  (forall k, (k < length qs)%nat -> (0 <= nth k qs 0 < Z.of_nat n)%Z) ->
+  (forall chn, In chn img -> length chn = length qs) ->
+  let '(mk, _, foc) := exec_from_quant n qs img in
+  (forall k, (k < length qs)%nat -> count_true (column mk k) = 1%nat) /\ foc = img.
+Proof. exact exec_from_quant_correct. Qed.
 
 Theorem C16_exec_slice_partition : forall (ps depth : list dy) (k : nat),
   let N := (length ps - 1)%nat in
